@@ -1,10 +1,46 @@
 /-
-  Driver ops for C17.
+  Driver ops for C17: the Cedar text printer (`schema-print`, bytes), the JSON encoder (`schema-json`, bytes)
+  and the JSON struct-level round trip (`schema-json-roundtrip`).  `schema-resolve` lives in Ops/C16.lean.
 -/
-import CedarGo.Driver.Ops.Core
+import CedarGo.Driver.Ops.C16
+import CedarGo.Model.Schema.Json
+import CedarGo.Model.Schema.Text
+import CedarGo.Model.Schema.Parser
 namespace CedarGo.Driver
-open Lean CedarGo
+open Lean CedarGo CedarGo.Schema
 
-def c17Ops : List (String × Handler) := []
+def opSchemaPrint : Handler := fun _ j => do
+  .ok (hex (printSchema (← getSchemaC1617 j)))
+
+def opSchemaJson : Handler := fun _ j => do
+  .ok (hex (renderSchemaJson (← getSchemaC1617 j)))
+
+def opSchemaJsonRoundtrip : Handler := fun _ j => do
+  let s ← getSchemaC1617 j
+  match unmarshalSchema (marshalSchema s) with
+  | .ok s' => .ok (if s' = { s with bare := { s.bare with anns := [] } } then "same" else "differs")
+  | .error e => .ok ("error " ++ e)
+
+/-- the text parser: Cedar schema text (hex) -> canonical AST dump, or `err` -/
+def opSchemaParse : Handler := fun _ j => do
+  let src ← jHex (← field j "text")
+  match parseSchema src with
+  | .ok s => .ok ("ok " ++ showSchemaAst s)
+  | .error _ => .ok "err"
+
+/-- the text leg inside the model: `(parse (print s)).bind resolve` against `resolve s`, and print stability -/
+def opSchemaTextRoundtrip : Handler := fun _ j => do
+  let s ← getSchemaC1617 j
+  let t1 := printSchema s
+  match parseSchema t1 with
+  | .error _ => .ok ("unparseable " ++ (match resolve s with | some (.ok _) => "resolvable" | _ => "unresolvable"))
+  | .ok s' =>
+    let stable := if printSchema s' = t1 then "stable" else "unstable"
+    let same := if showResolve s' = showResolve s then "same" else "differs"
+    .ok (stable ++ " " ++ same)
+
+def c17Ops : List (String × Handler) :=
+  [("schema-print", opSchemaPrint), ("schema-json", opSchemaJson), ("schema-json-roundtrip", opSchemaJsonRoundtrip),
+   ("schema-parse", opSchemaParse), ("schema-text-roundtrip", opSchemaTextRoundtrip)]
 
 end CedarGo.Driver
